@@ -380,7 +380,9 @@ static void run_par(const char* id, int nthreads, int adds, int reads, int churn
     for (int i = 0; i < reads; ++i) {
       ll lo_s = done_sum.load(), lo_c = done_cnt.load(), lo_e = done_ext.load();
       ll a = 0, b = 0;
+      std::atomic_thread_fence(std::memory_order_seq_cst);
       Tr::read(*obj, a, b);
+      std::atomic_thread_fence(std::memory_order_seq_cst);
       ll hi_s = started_sum.load(), hi_c = started_cnt.load(), hi_e = started_ext.load();
       if (is_cmp) {
         // extreme seen must be at least as extreme as every completed value and no more than any started one
